@@ -48,6 +48,8 @@ type vfScenario struct {
 	Edges    [][]string             `json:"edges"` // [from, to, kind]  kind: cd (default) | c | d
 	Branches []vfBranch             `json:"branches"`
 	Max      int                    `json:"max"`
+	AnyOut   bool                   `json:"anyout"` // the top-level graph is a Graph[map[string]any, any]: input and output type differ (checkpoint stream converters)
+	Chunks   int                    `json:"chunks"` // Collect/Transform calls hand the input over in this many chunks (0/1: one)
 	RMax     int                    `json:"rmax"` // per-call step limit (WithRuntimeMaxSteps) given at every call of the top-level graph; 0: none
 	Before   []string               `json:"before"`
 	After    []string               `json:"after"`
@@ -73,6 +75,8 @@ type vfScenario struct {
 
 type vfSub struct{ X int }
 
+type vfKey string
+
 type vfState struct {
 	// fields that only have to survive the checkpoint round trip unchanged (pointers nil and non-nil, containers)
 	NilP   *int
@@ -81,6 +85,7 @@ type vfState struct {
 	L      []string
 	Sub    *vfSub
 	NilSub *vfSub
+	RK     map[vfKey]int // a map keyed by a named string type
 
 	Trail   []string
 	Count   int // number of critical sections performed on this state (read, yield, write back: lost updates show)
@@ -91,14 +96,15 @@ type vfState struct {
 func init() {
 	_ = RegisterSerializableType[vfState]("_verif_engine_state")
 	_ = RegisterSerializableType[vfSub]("_verif_engine_substate")
+	_ = RegisterSerializableType[vfKey]("_verif_engine_key")
 }
 
 func vfNewState() *vfState {
 	seven := 7
-	return &vfState{P: &seven, M: map[string]int{"k": 1}, L: []string{"u", "v"}, Sub: &vfSub{X: 5}}
+	return &vfState{P: &seven, M: map[string]int{"k": 1}, L: []string{"u", "v"}, Sub: &vfSub{X: 5}, RK: map[vfKey]int{"role": 3}}
 }
 
-// digest of the carried fields; the fresh value is "true|7|1|u,v|5|true"
+// digest of the carried fields; the fresh value is "true|7|1|u,v|5|true|3"
 func (s *vfState) digest() string {
 	p, sub := "nil", "nil"
 	if s.P != nil {
@@ -107,7 +113,7 @@ func (s *vfState) digest() string {
 	if s.Sub != nil {
 		sub = fmt.Sprint(s.Sub.X)
 	}
-	return fmt.Sprintf("%v|%s|%d|%s|%s|%v", s.NilP == nil, p, s.M["k"], strings.Join(s.L, ","), sub, s.NilSub == nil)
+	return fmt.Sprintf("%v|%s|%d|%s|%s|%v|%d", s.NilP == nil, p, s.M["k"], strings.Join(s.L, ","), sub, s.NilSub == nil, s.RK["role"])
 }
 
 type vfErr struct{ Node string }
@@ -399,8 +405,8 @@ func (r *vfRun) nodeLambda(prefix string, sc *vfScenario, name string) *Lambda {
 				if rc.cancel != nil {
 					rc.cancel()
 				}
-			case "cspanic":
-				// handled above (the node itself goes on normally)
+			case "cspanic", "prerr", "posterr":
+				// handled elsewhere: a state callback of the node panics / its state pre- or post-handler fails (the body itself is fine)
 			case "serr", "spanic":
 				// the body succeeds; its output stream carries an error item / a panicking convert (see below)
 			}
@@ -494,9 +500,23 @@ func (r *vfRun) csHold(rec *vfRec, st *vfState, prefix, kind, name string, hold 
 	rec.log(map[string]any{"ev": "cs", "p": prefix, "k": kind, "n": name, "seq": seq})
 }
 
+func vfFailKind(sc *vfScenario, name string) string {
+	for _, f := range sc.Fail {
+		if f.N == name {
+			return f.Kind
+		}
+	}
+	return ""
+}
+
 func (r *vfRun) postHandler(prefix string, sc *vfScenario, name string) StatePostHandler[map[string]any, *vfState] {
+	failing := vfFailKind(sc, name) == "posterr"
 	return func(ctx context.Context, out map[string]any, st *vfState) (map[string]any, error) {
 		r.cs(r.cur(ctx).rec, st, prefix, "post", name)
+		if failing {
+			// the node's state post-handler fails: the run must fail naming this node, with the cause recoverable
+			return nil, fmt.Errorf("wrapped: %w", &vfErrWrap{Node: prefix + name, cause: vfSentinel})
+		}
 		if sc.HMod {
 			o2 := map[string]any{}
 			for k, v := range out {
@@ -511,6 +531,7 @@ func (r *vfRun) postHandler(prefix string, sc *vfScenario, name string) StatePos
 
 func (r *vfRun) preHandler(prefix string, sc *vfScenario, name string) StatePreHandler[map[string]any, *vfState] {
 	isRerun := vfIn(sc.Rerun, name)
+	failing := vfFailKind(sc, name) == "prerr"
 	return func(ctx context.Context, in map[string]any, st *vfState) (map[string]any, error) {
 		if isRerun && st.Pending[name] && len(in) == 0 {
 			in, _ = st.Saved[name].(map[string]any) // rebuild the input of the aborted attempt from state
@@ -542,6 +563,9 @@ func (r *vfRun) preHandler(prefix string, sc *vfScenario, name string) StatePreH
 			st.Pending[name] = true
 		}
 		r.cur(ctx).rec.log(map[string]any{"ev": "pre", "p": prefix, "n": name, "rebuilt": false})
+		if failing {
+			return nil, fmt.Errorf("wrapped: %w", &vfErrWrap{Node: prefix + name, cause: vfSentinel})
+		}
 		return in, nil
 	}
 }
@@ -802,6 +826,59 @@ func (r *vfRun) newGraphOpts(sc *vfScenario) []NewGraphOption {
 	return nil
 }
 
+// what build needs from a Graph[I, O], whatever I and O are
+type vfGraphAPI interface {
+	AnyGraph
+	AddLambdaNode(key string, node *Lambda, opts ...GraphAddNodeOpt) error
+	AddGraphNode(key string, node AnyGraph, opts ...GraphAddNodeOpt) error
+	AddEdge(startNode, endNode string) error
+	AddBranch(startNode string, branch *GraphBranch) error
+}
+
+// a Runnable[map, any] seen as a Runnable[map, map] (the values that reach END are maps)
+type vfAnyOutRun struct {
+	r Runnable[map[string]any, any]
+}
+
+func vfAsMap(v any) (map[string]any, error) {
+	if v == nil {
+		return nil, nil
+	}
+	m, ok := v.(map[string]any)
+	if !ok {
+		return nil, fmt.Errorf("verif: result of type %T", v)
+	}
+	return m, nil
+}
+func (a vfAnyOutRun) Invoke(ctx context.Context, in map[string]any, opts ...Option) (map[string]any, error) {
+	o, err := a.r.Invoke(ctx, in, opts...)
+	if err != nil {
+		return nil, err
+	}
+	return vfAsMap(o)
+}
+func (a vfAnyOutRun) Collect(ctx context.Context, in *schema.StreamReader[map[string]any], opts ...Option) (map[string]any, error) {
+	o, err := a.r.Collect(ctx, in, opts...)
+	if err != nil {
+		return nil, err
+	}
+	return vfAsMap(o)
+}
+func (a vfAnyOutRun) Stream(ctx context.Context, in map[string]any, opts ...Option) (*schema.StreamReader[map[string]any], error) {
+	sr, err := a.r.Stream(ctx, in, opts...)
+	if err != nil {
+		return nil, err
+	}
+	return schema.StreamReaderWithConvert(sr, vfAsMap), nil
+}
+func (a vfAnyOutRun) Transform(ctx context.Context, in *schema.StreamReader[map[string]any], opts ...Option) (*schema.StreamReader[map[string]any], error) {
+	sr, err := a.r.Transform(ctx, in, opts...)
+	if err != nil {
+		return nil, err
+	}
+	return schema.StreamReaderWithConvert(sr, vfAsMap), nil
+}
+
 // build returns the AnyGraph for a scenario (Graph for pregel/dag, Workflow for wf)
 func (r *vfRun) build(prefix string, sc *vfScenario) (AnyGraph, error) {
 	if sc.Mode == "wf" {
@@ -842,7 +919,12 @@ func (r *vfRun) build(prefix string, sc *vfScenario) (AnyGraph, error) {
 		}
 		return wf, nil
 	}
-	g := NewGraph[map[string]any, map[string]any](r.newGraphOpts(sc)...)
+	var g vfGraphAPI
+	if sc.AnyOut && prefix == "" {
+		g = NewGraph[map[string]any, any](r.newGraphOpts(sc)...)
+	} else {
+		g = NewGraph[map[string]any, map[string]any](r.newGraphOpts(sc)...)
+	}
 	for _, n := range sc.Nodes {
 		if sub, ok := sc.Sub[n]; ok {
 			sg, err := r.build(prefix+n+"/", sub)
@@ -904,6 +986,9 @@ func (r *vfRun) build(prefix string, sc *vfScenario) (AnyGraph, error) {
 
 var vfPathRe = regexp.MustCompile(`node path: \[([^\]]*)\]`)
 
+// a failing state pre-handler is reported by the run loop of the graph that owns the node: the message names the node key
+var vfPreRe = regexp.MustCompile(`run node\[([^\]]*)\] pre processor fail`)
+
 func vfClassify(err error) map[string]any {
 	msg := err.Error()
 	out := map[string]any{"ev": "error"}
@@ -914,6 +999,10 @@ func vfClassify(err error) map[string]any {
 		}
 	}
 	out["path"] = path
+	out["prenode"] = ""
+	if m := vfPreRe.FindStringSubmatch(msg); m != nil {
+		out["prenode"] = m[1]
+	}
 	var we *vfErrWrap
 	out["as"] = errors.As(err, &we)
 	out["asnode"] = ""
@@ -999,6 +1088,13 @@ func (r *vfRun) call(rc *vfCall, run Runnable[map[string]any, map[string]any], p
 			ch <- o
 		}()
 		in := map[string]any{"in": map[string]any{"n": rc.x0, "i": map[string]any{}}}
+		inStream := func() *schema.StreamReader[map[string]any] {
+			chunks := []map[string]any{in}
+			for j := 1; j < r.sc.Chunks; j++ {
+				chunks = append(chunks, map[string]any{})
+			}
+			return schema.StreamReaderFromArray(chunks)
+		}
 		switch paradigm {
 		case "stream", "transform":
 			var sr *schema.StreamReader[map[string]any]
@@ -1006,7 +1102,7 @@ func (r *vfRun) call(rc *vfCall, run Runnable[map[string]any, map[string]any], p
 			if paradigm == "stream" {
 				sr, err = run.Stream(ctx, in, opts...)
 			} else {
-				sr, err = run.Transform(ctx, schema.StreamReaderFromArray([]map[string]any{in}), opts...)
+				sr, err = run.Transform(ctx, inStream(), opts...)
 			}
 			if err != nil {
 				o.err = err
@@ -1033,7 +1129,7 @@ func (r *vfRun) call(rc *vfCall, run Runnable[map[string]any, map[string]any], p
 				o.out = acc
 			}
 		case "collect":
-			o.out, o.err = run.Collect(ctx, schema.StreamReaderFromArray([]map[string]any{in}), opts...)
+			o.out, o.err = run.Collect(ctx, inStream(), opts...)
 		default:
 			o.out, o.err = run.Invoke(ctx, in, opts...)
 		}
@@ -1068,6 +1164,13 @@ func (r *vfRun) compile(store *vfStore) (run Runnable[map[string]any, map[string
 	copts := r.compileOpts(sc, store)
 	if wf, ok := g.(*Workflow[map[string]any, map[string]any]); ok {
 		return wf.Compile(context.Background(), copts...)
+	}
+	if ga, ok := g.(*Graph[map[string]any, any]); ok {
+		ra, cerr := ga.Compile(context.Background(), copts...)
+		if cerr != nil {
+			return nil, cerr
+		}
+		return vfAnyOutRun{ra}, nil
 	}
 	return g.(*Graph[map[string]any, map[string]any]).Compile(context.Background(), copts...)
 }
